@@ -18,7 +18,8 @@ PROPS = {
                   "distinguish trunk members (literal false in parseTearDownConf, doCmdDel only has ipvlan/policy-route teardown branches and "
                   "GenericTearDown removes everything else); that is still a mapping determined by IP type, trunking and VLAN mode, and the "
                   "statement does not demand DEL == ADD "
-                  "(round-trip + table/metamorphic check of getDatePath)",
+                  "(round-trip + table/metamorphic check of getDatePath); as in doCmdAdd/doCmdCheck/doCmdDel ALL interfaces of a reply are parsed first and "
+                  "the recovered configurations are judged afterwards, and interfaces often share a vSwitch (identical CIDR strings)",
         rule="cases drawn by rapid generators (allocation world: legacy pool / exclusive ENI / trunk PodENI / CRD node "
              "binding / CRD PodENI, ipv4|dual|ipv6, 1-4 allocations, CNI conf, runtime bandwidth); non-trivial = reply "
              "with >= 2 NetConfs, or dual-stack, or a runtime bandwidth override, or a CRD node holding stale records of an earlier incarnation of the pod (for the defaulting test: list of >= 2 "
@@ -26,7 +27,8 @@ PROPS = {
         assumptions=[
             "PodENI objects have the shapes terway's controllers write: every allocation has an IPv4 address (plus IPv6 on dual-stack) with its "
             "vSwitch CIDR - except in the 'incomplete record' class (1 world in 8: one family's CIDR empty or too small for the reserved gateway), "
-            "where handing out no configuration is accepted; Status.ENIInfos has an entry per allocation, interface names are distinct; "
+            "where handing out no configuration is accepted; Status.ENIInfos has an entry per allocation, interface names are distinct; allocations after the first reuse the vSwitch of an earlier "
+            "one half of the time (same CIDR strings, distinct addresses); "
             "default-route flags and the presence of a primary interface are NOT assumed (the daemon must refuse bad combinations)",
             "CRD worlds: 1 in 6 has an incomplete ENI record in the Node CR (ipv4CIDR/ipv6CIDR empty - e.g. recorded before the vSwitch got IPv6 - "
             "or malformed), usually on the ENI the pod is bound to: no configuration (error or empty reply) is accepted there, a carried family "
